@@ -6,13 +6,18 @@ use crate::uri::Uri;
 use bytes::Bytes;
 use internal::IResult;
 use nom::branch::alt;
-use nom::bytes::complete::{escaped, is_not};
+use nom::bytes::complete::{escaped, is_not, take};
 use nom::character::complete::char;
 use nom::combinator::map;
 use nom::sequence::delimited;
 
 pub(crate) fn parse_quoted(i: &str) -> IResult<&str, &str> {
-    delimited(char('"'), escaped(is_not("\""), '\\', char('"')), char('"'))(i)
+    delimited(
+        char('"'),
+        // `escaped` rejects input it cannot consume anything of, the empty quoted-string `""` is valid though
+        alt((escaped(is_not("\""), '\\', char('"')), take(0usize))),
+        char('"'),
+    )(i)
 }
 
 pub(crate) fn whitespace(c: char) -> bool {
